@@ -215,7 +215,9 @@ def run(out, tier):
         # ... and mode all HEALS a fault in the first build that selects the target (it restores every selected output), mode minimal
         # only in the build in which an executing dependant needs it -- possibly several builds later.  After a fault the commands
         # are therefore compared cumulatively: what minimal has executed since the fault is a sub-multiset of what all has executed
-        # since the fault (per build this is the old rule whenever both heal in the same build)
+        # since the fault (per build this is the old rule whenever both heal in the same build).  Multiplicities are not judged after a
+        # fault: two dependants that need the same unrestorable dependency at the same time may both re-make it (C03's "at most once"
+        # is stated "absent cache faults"; C15 speaks of the same SET of commands)
         cum_a, cum_m = [], []
         for bi, (a, b) in enumerate(zip(ha.builds, hm.builds)):
             evals += 1
@@ -225,7 +227,8 @@ def run(out, tier):
             if (a["rc"] == 0) != (b["rc"] == 0):
                 hc.decide(out, "C15", findings, hm, "build %d: mode all exits %s, mode minimal exits %s (%s)" % (bi, a["rc"], b["rc"], b["stderr"][-200:]),
                           predicted, GUARDS)
-            elif bi < len(faulted) and faulted[bi] and (sub_multiset(b["starts"], a["starts"]) or sub_multiset(cum_m, cum_a)):
+            elif bi < len(faulted) and faulted[bi] and (sub_multiset(b["starts"], a["starts"]) or sub_multiset(cum_m, cum_a)
+                                                           or set(cum_m) <= set(cum_a)):
                 pass
             elif sorted(a["starts"]) != sorted(b["starts"]):
                 hc.decide(out, "C15", findings, hm, "build %d executes %s under all but %s under minimal" % (bi, sorted(a["starts"]), sorted(b["starts"])),
